@@ -2703,6 +2703,33 @@ void run_grammar_faults(std::string const &name, Parser const &parser, std::vect
             if (!seekable && returned)
               vf::count(success ? "observed/parse-noseek/success" : "observed/parse-noseek/failure");
           }
+  // the state the caller's stream is in when it is handed over: eofbit / failbit / badbit already set (an earlier read hit
+  // the end, a failed extraction, a device error) - the entry point returns an either, whatever it finds
+  for (std::string const &t : texts)
+    for (int pre = 0; pre < 4; ++pre)
+    {
+      if (!my_item())
+        continue;
+      char const *const pn[] = {"eofbit", "failbit", "badbit", "eofbit|failbit"};
+      if (!vf::begin_case("text(len %zu)=\"%s\" stream handed over with %s set", t.size(), printable(t).c_str(), pn[pre]))
+        continue;
+      vf::note_distinct(vf::hash_mix(vf::hash_mix(vf::hash_str(e), vf::hash_str(t)), 9000U + static_cast<unsigned>(pre)));
+      std::basic_istringstream<Ch> is(conv<Ch>(t));
+      is.unsetf(std::ios_base::skipws);
+      is.setstate(pre == 0   ? std::ios_base::eofbit
+                  : pre == 1 ? std::ios_base::failbit
+                  : pre == 2 ? std::ios_base::badbit
+                             : std::ios_base::eofbit | std::ios_base::failbit);
+      bool success = false;
+      bool const returned = guard(wl_none, [&] {
+        auto const r = p::phrase_parse_stream(parser, is, space_skipper<Ch>());
+        success = r.has_success();
+      });
+      ++calls;
+      if (returned)
+        vf::count(std::string("outcome/phrase_parse_stream/handed-over-with-") + pn[pre] + (success ? "/success" : "/failure"));
+      VF_COUNT("bucket/phrase_parse_stream/handed-over-in-a-failed-state");
+    }
   vf::count("calls/" + e, calls);
 }
 }
@@ -3053,7 +3080,8 @@ void body()
         "outcome/ill-formed-definition/threw", "outcome/is_power_of_2/true", "outcome/is_power_of_2/false",
         "faults/throw/reached/exceptions-off", "faults/throw/reached/exceptions-on", "faults/eof/reached",
         "parse-faults/throw/reached/exceptions-off", "parse-faults/throw/reached/exceptions-on", "streams/istringstream",
-        "bucket/reverse_mem/empty-block", "bucket/raw_vector/aliased-value-while-reallocating"})
+        "bucket/reverse_mem/empty-block", "bucket/raw_vector/aliased-value-while-reallocating",
+        "bucket/phrase_parse_stream/handed-over-in-a-failed-state"})
     vf::require_bucket(b);
   // an entry family that never returned both outcomes where both are possible makes the run inconclusive
   for (char const *f : {"ceil_div", "ceil_div_signed", "div", "mod", "clamp", "div-float", "mod-float", "clamp-float", "truncation_check",
